@@ -377,14 +377,22 @@ def short(t, depth=0):
     return k + '(' + ','.join(short(x, depth + 1) for x in t[1:]) + ')'
 
 
+OPAQUE_DEFS = {}      # name of an opaque symbol (a value that may have wrapped around) -> the term it stands for
+
+
 def atoms_of(t, acc=None):
-    """Input atoms ('in'/'sym') occurring in a term."""
+    """Input atoms ('in'/'sym') occurring in a term (an opaque `wrapped:` symbol also contributes the atoms of the value it
+    stands for: where a value comes from does not change when it wraps)."""
     if acc is None:
         acc = set()
     if not isinstance(t, tuple):
         return acc
     if t[0] in ('in', 'sym'):
-        acc.add(t)
+        if t not in acc:
+            acc.add(t)
+            d = OPAQUE_DEFS.get(t[1]) if t[0] == 'sym' and OPAQUE_DEFS else None
+            if d is not None:
+                atoms_of(d, acc)
         return acc
     for x in t[1:]:
         if isinstance(x, tuple):
